@@ -90,7 +90,7 @@ func (s *SQLIndexQuery) String(ctx *sql.Ctx, options ...int) (string, error) {
 		}
 		if s.MaxDurationNS > 0 && s.Ver.IsVersionSupported("tempo_v2", s.FromNS, s.ToNS) {
 			sqlTagRequests[i].AndWhere(
-				sql.Lt(sql.NewRawObject("duration"), sql.NewIntVal(s.MaxDurationNS)))
+				sql.Le(sql.NewRawObject("duration"), sql.NewIntVal(s.MaxDurationNS)))
 		}
 	}
 	request := sql.NewSelect().
